@@ -160,8 +160,12 @@ def r2_helpers(ctx):
             only_const = all(isinstance(x.value, ast.Constant) and isinstance(x.value.value, bool) for x in all_rets)
             false_elsewhere = any(const(x, False) for b in list(t.body) + list(t.orelse) + after for x in ast.walk(b))
             true_in_handler = any(const(x, True) for h in t.handlers for b in h.body for x in ast.walk(b))
-            ok = calls_cv and ret_true and ret_false and only_const and not false_elsewhere and not true_in_handler
-            detail = f"coerce_value called: {calls_cv}; True on success: {ret_true and not false_elsewhere}; False on exception: {ret_false and not true_in_handler}"
+            # coerce_value is user-extensible (custom dtypes) and numpy raises OverflowError etc.: only a broad handler makes
+            # "did not raise" total - a narrowed tuple lets the other exceptions escape from the failure-case computation
+            broad = any(h.type is None or set(handler_names(h)) & {"Exception", "BaseException"} for h in t.handlers)
+            ok = calls_cv and ret_true and ret_false and only_const and not false_elsewhere and not true_in_handler and broad
+            detail = (f"coerce_value called: {calls_cv}; True on success: {ret_true and not false_elsewhere}; False on exception: "
+                      f"{ret_false and not true_in_handler}; every exception caught: {broad}")
     ctx.ob("R2", f, "numpy_pandas_coercible(x) == `coerce_value(x)` does not raise, element-wise", ok and mapped,
            detail + (f"; returned as {f.positional[0]}.map(predicate)" if mapped else
                      f"; the returned flags are `{txt(rets[0])[:80] if rets else None}`, not the plain element-wise map: elements whose "
@@ -176,6 +180,14 @@ def r2_helpers(ctx):
     ign = any(callee_last(c) == "Check" and isinstance(kw(c, "ignore_na"), ast.Constant) and kw(c, "ignore_na").value is False for c in calls_in(g.node))
     ctx.ob("R2", g, "failure cases are the elements whose coercible flag is False (nulls not ignored)", ok and ign,
            f"postprocess(data_container, check_output) x{len(uses)}; stub check ignore_na=False: {ign}")
+    # the report of uncoercible elements keeps nulls: reshape_failure_cases drops them unless told otherwise
+    for c in [c for c in calls_in(g.node) if callee_last(c) == "reshape_failure_cases"]:
+        v = kw(c, "ignore_na") or (c.args[1] if len(c.args) > 1 else None)
+        okn = isinstance(v, ast.Constant) and v.value is False
+        ctx.ob("R2", g, "failure cases of a coercion keep null elements (reshape_failure_cases(..., ignore_na=False))", okn,
+               "ignore_na=False" if okn else
+               f"`{txt(c)[:60]}` uses the helper's default ignore_na=True: a null coerced to a type that cannot hold it (NaN -> int64) is dropped from the "
+               "failure cases, the ParserError names nothing (failure_cases=None)", g.loc(c))
     pe = ix.module("pandera/engines/polars_engine.py")
     h = pe.functions.get("polars_object_coercible")
     ctx.touched(h)
